@@ -5,7 +5,7 @@ sentinel [-1] / -1 / "err:<Type>" so that they can never equal an expected value
 """
 
 from ..common import frame
-from . import history
+from . import envrot, history
 
 BAD = [-1]
 
@@ -38,7 +38,20 @@ def parse_call(f, mode, pbf, validate):
     if len(f) % 2:
         pbf = bool(pbf)  # the documented type of parsebitfield is bool; both spellings are exercised
     try:
-        m = UBXReader.parse(bytes(f), msgmode=mode, validate=validate, parsebitfield=pbf)
+        with envrot.hostile(envrot.key(bytes(f), mode, validate)):
+            if len(f) % 3 == 1:
+                # a caller that owns an earlier result of the same call and has changed its mutable values in place
+                try:
+                    envrot.taint(UBXReader.parse(bytes(f), msgmode=mode, validate=validate, parsebitfield=pbf))
+                except Exception:  # noqa: BLE001 - the observed call below reports it
+                    pass
+            if len(f) % 5 == 3:
+                # the documented static method, reached through an instance (as application code holding a reader does)
+                import io
+
+                m = UBXReader(io.BytesIO(b""), validate=1 - (validate & 1)).parse(bytes(f), msgmode=mode, validate=validate, parsebitfield=pbf)
+            else:
+                m = UBXReader.parse(bytes(f), msgmode=mode, validate=validate, parsebitfield=pbf)
     except Exception as ex:  # noqa: BLE001
         return None, classify_exc(ex)
     if m is None:
@@ -54,7 +67,8 @@ def obs_c01(case):
     history.run(case.get("hist"))
     m, out = parse_call(f, case["mode"], case["pbf"], case["validate"])
     ev = {"prop": "C01", "kind": "parse", "f": list(f), "out": out, "mode": case["mode"], "pbf": case["pbf"],
-          "validate": case["validate"], "ser": BAD, "cls": BAD, "mid": BAD, "length": -1, "payload": BAD, "reprser": BAD}
+          "validate": case["validate"], "ser": BAD, "cls": BAD, "mid": BAD, "length": -1, "payload": BAD, "reprser": BAD,
+          "repr": "", "reprok": 0, "mmode": -1}
     if m is not None:
         ev["ser"] = _bytes_or_bad(m.serialize)
         ev["cls"] = _bytes_or_bad(lambda: m.msg_cls)
@@ -66,6 +80,13 @@ def obs_c01(case):
             ev["length"] = -1
         ev["payload"] = _bytes_or_bad(lambda: m.payload)
         ev["reprser"] = _bytes_or_bad(lambda: eval(repr(m), {"UBXMessage": UBXMessage, "__builtins__": {}}).serialize())  # noqa: S307
+        # spec growth: the text itself (short frames only: TLC strings are built character by character)
+        try:
+            s = repr(m) if len(f) <= 600 else ""
+            ok = bool(s) and s.isascii()
+            ev["repr"], ev["reprok"], ev["mmode"] = (s if ok else ""), (1 if ok else 0), (m.msgmode if isinstance(m.msgmode, int) else -1)
+        except Exception:  # noqa: BLE001
+            ev["repr"], ev["reprok"], ev["mmode"] = "", 0, -1
     return ev
 
 
@@ -135,7 +156,8 @@ def obs_c08(case):
                    ("payload", lambda: m.payload), ("msgmode", lambda: m.msgmode), ("serialize", lambda: m.serialize()))
             for name, fn in ops:
                 try:
-                    fn()
+                    with envrot.hostile(envrot.key(f, len(name)), decimals=False):
+                        fn()
                     ev["inspect"].append([name, "ok"])
                 except ObserverTimeout:
                     raise
@@ -150,4 +172,26 @@ def obs_c08(case):
     return ev
 
 
-OBSERVERS = {"c08": obs_c08, "c01": obs_c01, "c05_parse": obs_c05_parse, "c05_valnone": obs_c05_valnone}
+def obs_gate(case):
+    """spec growth: what each entry point makes of a msgmode value (everything else about the call is valid)"""
+    import io
+
+    from pyubx2 import UBXMessage, UBXReader
+
+    api, m = case["api"], case["m"]
+    try:
+        if api == "reader":
+            UBXReader(io.BytesIO(b""), msgmode=m)
+        elif api == "parse":
+            UBXReader.parse(frame(0x0A, 0x04, b""), msgmode=m)
+        else:
+            UBXMessage(b"\x0a", b"\x04", m)
+        out = "ok"
+    except Exception as ex:  # noqa: BLE001
+        out = type(ex).__name__
+    return {"prop": "EXT-gate", "api": api, "m": m, "out": out}
+
+
+from .race import obs_race  # noqa: E402
+
+OBSERVERS = {"c08": obs_c08, "c01": obs_c01, "c05_parse": obs_c05_parse, "c05_valnone": obs_c05_valnone, "race": obs_race, "gate": obs_gate}
